@@ -782,6 +782,77 @@ def witness_cases():
     return [f8_witness_case(), collision_witness_case(), uni_witness_case(), drop_witness_case()]
 
 
+# ------------------------------------------------------------------------------------------------
+# second group: Tree.reseed_at(node) against the spec-level rotation C04Spec.reseed
+
+RHEADER = ("From DV Require Import Model.PyPrims Model.Tree Model.C04Model Model.C04Spec.\n"
+           "From Coq Require Import ZArith. Open Scope Z_scope.")
+
+
+def internal_paths(spec):
+    """child-position paths from the seed to every internal node (the seed itself: [])"""
+    out = []
+
+    def go(n, path):
+        if n["kids"]:
+            out.append(path)
+            for i, k in enumerate(n["kids"]):
+                go(k, path + [i])
+    go(spec, [])
+    return out
+
+
+def gen_rcase(rng, max_leaves=10):
+    n = rng.randint(2, max_leaves)
+    t = trees.gen_tree(rng, n, lengths=rng.choice(LENGTH_PATTERNS), unifurcations=rng.choice([0.0, 0.0, 0.2]),
+                       taxa=rng.sample(range(n), n))
+    t["len"] = rng.choice([None, None, None, 1024])
+    paths = internal_paths(t)
+    return {"ntaxa": n, "spec": t, "rooted": rng.choice([None, False, False, True]), "path": rng.choice(paths)}
+
+
+def observe_r(case):
+    import dendropy
+    n = case["ntaxa"]
+    ns, objs = trees.make_namespace(n, None)
+    tindex = {id(t): k for k, t in enumerate(objs)}
+    tree, _by_id = trees.build_dendropy(case["spec"], dict(enumerate(objs)), is_rooted=case["rooted"], namespace=ns)
+    nd = tree.seed_node
+    for p_ in case["path"]:
+        nd = nd._child_nodes[p_]
+    try:
+        tree.reseed_at(nd)
+    except Exception as e:
+        return {"err": core.exc_enum(e), "merge": not library_drops()}
+    spec, problems = trees.dump_dendropy(tree, tindex, alloc=trees.IdAlloc(10000))
+    if problems:
+        raise RuntimeError("ill-formed tree after reseed_at: %s" % problems[:3])
+    return {"spec": spec, "rooted": tree.is_rooted, "merge": not library_drops()}
+
+
+def to_coq_r(case, obs):
+    exp = "None" if "err" in obs else "(Some %s)" % c_struct(obs["spec"], obs["rooted"])
+    return "(mkRCase %s %s %s %s)" % (cbool(obs["merge"]), c_struct(case["spec"], case["rooted"]),
+                                      clist([cnat(x) for x in case["path"]]), exp)
+
+
+def oracle_r(case, obs):
+    """moving the seed of a tree that is not rooted must not change its splits and split lengths"""
+    if "err" in obs:
+        return ("reseed_at(internal node) raised %s" % obs["err"], "reseed-raises")
+    if case["rooted"] is True:
+        return None
+    lv = [x["taxon"] for x in trees.leaves(obs["spec"])]
+    if None in lv:
+        return None     # a unifurcating seed is left behind as a taxon-less leaf (outside C04: see C07)
+    if ideal_splits(case["spec"], case["rooted"]) != ideal_splits(obs["spec"], obs["rooted"]):
+        if _drops_length((case["spec"], case["rooted"])) or _drops_length((_suppressed(case["spec"]), case["rooted"])):
+            return ("reseed_at dropped a basal edge length", KEY_DROP)
+        return ("reseed_at changed the splits / split lengths of a not-rooted tree: %s -> %s"
+                % (trees.newick(case["spec"]), trees.newick(obs["spec"])), "reseed-changes-tree")
+    return None
+
+
 def search(ctx, budget_s):
     t0 = time.time()
     rng = random.Random(ctx.seed + 404)
@@ -825,7 +896,16 @@ def run(tier, seed, replay=None):
         print("oracle:", oracle(case, obs))
         print("model:", core.show_cases("C04", HEADER, "case_run", [to_coq(case, obs)]))
         return 0
-    ok = core.proof_stage(ctx, ["Props/C04.vo"], gen_needed=("BitFns",))
+    # euclid_triangle_sqrt is stated over Coq's classical reals: the three standard axioms of Coq.Reals are allowed
+    # (every other theorem must be closed under the global context - they are, see evidence.trusted_base)
+    ok = core.proof_stage(ctx, ["Props/C04.vo"], gen_needed=("BitFns",),
+                          allow_axioms=("ClassicalDedekindReals.sig_forall_dec", "ClassicalDedekindReals.sig_not_dec",
+                                        "FunctionalExtensionality.functional_extensionality_dep"))
+    stray = [t for t in ctx.trusted if t.startswith("axiom ") and not t.endswith("used by euclid_triangle_sqrt")]
+    ctx.obligation("only euclid_triangle_sqrt depends on axioms (the three of Coq.Reals)", not stray)
+    if stray:
+        ctx.notes.append("axioms used outside euclid_triangle_sqrt: %s" % stray)
+        ok = False
     if not ok:
         core.broken_proof(ctx, search)
     n = 420 if tier == "quick" else 5000
@@ -853,6 +933,13 @@ def run(tier, seed, replay=None):
     core.corr_stage(ctx, cases, observe_counting, to_coq, HEADER, "case_ok", oracle=oracle,
                     show_fn="case_run", nontrivial=nontrivial, search=search, shard=75 if tier == "quick" else 150,
                     sample_fn=show_sample)
+    nr = 150 if tier == "quick" else 2500
+    rcases = [gen_rcase(ctx.rng, 10 if tier == "quick" else 14) for _ in range(nr)]
+    for c in rcases:
+        ctx.count("reseed:path-length:%d" % len(c["path"]))
+    core.corr_stage(ctx, rcases, observe_r, to_coq_r, RHEADER, "rcase_ok", oracle=oracle_r, show_fn="rcase_run",
+                    nontrivial=lambda c, o: len(c["path"]) >= 1 and c["ntaxa"] >= 3, search=None, shard=75,
+                    label="reseed", sample_fn=lambda c, o: {"tree": trees.newick(c["spec"]), "rooted": c["rooted"], "path": c["path"]})
     ctx.notes.append("missing-length policy of the working tree (probed): %s" % policy())
     ctx.notes.append("collapse_basal_bifurcation() of the working tree (probed): %s"
                      % ("drops the removed length onto a missing one (mg = false)" if library_drops()
